@@ -43,6 +43,16 @@ def offline_env(extra=None):
     return env
 
 
+def test_env(extra=None):
+    """environment of every native `cargo test` run on a scratch copy (one shared target dir,
+    so the flags must never vary or the dependencies are rebuilt)"""
+    e = {"CARGO_TARGET_DIR": os.path.join(CACHE, "test-target"), "RUST_BACKTRACE": "0",
+         "RUSTFLAGS": "--check-cfg=cfg(kani)"}
+    if extra:
+        e.update(extra)
+    return offline_env(e)
+
+
 def load_known_findings():
     p = os.path.join(VERIF, "known_findings.json")
     if not os.path.exists(p):
